@@ -443,6 +443,39 @@ func codecGenC03(r *fw.Rng, tier string, emit func(fw.Case)) {
 				other := codecValidBody(e, g.r, ctx)
 				g.mutate(raw, other, full, full && i%2 == 0)
 			}
+			// "big, then small" on one reused receiver: for types with list/length variants every ordered pair of
+			// (a few) variants, e.g. a 255-entry list followed by the empty form — stale entries of the earlier message
+			// must not survive in the later one
+			if e.variants != nil && e.gen != nil {
+				vs := e.variants(tier)
+				pick := []int{}
+				for _, k := range []int{0, 1, len(vs) / 2, len(vs) - 1} {
+					if k >= 0 && k < len(vs) {
+						dup := false
+						for _, p := range pick {
+							dup = dup || p == vs[k]
+						}
+						if !dup {
+							pick = append(pick, vs[k])
+						}
+					}
+				}
+				bodies := map[int][]byte{}
+				for _, v := range pick {
+					val := e.gen(g.r, ctx, v)
+					if b, ok := (&codecBodyRecv{v: val, ver: ctx.ver}).encode(); ok {
+						bodies[v] = g.final(b)
+					}
+				}
+				for _, small := range pick {
+					for _, big := range pick {
+						if small == big || bodies[small] == nil || len(bodies[big]) == 0 {
+							continue
+						}
+						emit(fw.Case{Op: "tot", Args: []string{e.name, ctx.s, fw.Hex(bodies[small]), fw.Hex(bodies[big])}})
+					}
+				}
+			}
 			if full {
 				g.random(20*mul, 2*mul)
 			} else {
